@@ -16,6 +16,8 @@ for d in sorted(os.listdir("/verif/seeded")):
         how = "own check no; **" + oc["check"].split()[1] + " yes** (" + "; ".join(b.split("/")[0] for b in oc["buckets"][:2]) + ")"
     elif not det.get("applies_to_current_tree", True):
         how = "patch does not apply to the fixed tree"
+    elif d == "C16-2":
+        how = "no longer a defect: after fix bf6d75f the swapped wait/join is harmless (the forwarder answers RIO_WAIT in a thread of its own); C05 detected it before that fix"
     else:
         how = "**no**"
     rows.append((d, what, how))
